@@ -90,6 +90,8 @@ class SimBatch(A.BatchBase):
             p = A.BatchBase.get_priority(self)
         elif p == "neglen":
             p = (0, -len(self.items))
+        elif p[0] == "int":
+            p = p[1]
         else:
             p = tuple(p)
         self.B.prio_log.append((self, p))
@@ -107,15 +109,16 @@ class SimBatch(A.BatchBase):
 class SimDebugItem(_batching.DebugBatchItem):
     """The built-in DebugBatchItem, with a harness token."""
 
-    def __init__(self, B, tok, kind, key):
-        _batching.DebugBatchItem.__init__(self, "k%d" % kind, "%d:%s" % (kind, key))
+    def __init__(self, B, tok, kind, key, native=False):
+        _batching.DebugBatchItem.__init__(self, ("n%d" if native else "k%d") % kind, "%d:%s" % (kind, key))
         self.tok = tok
         self.key = key
+        self.B_ = B
         self.ncomputed = 0
         self.on_computed.subscribe(self._notify)
 
     def _notify(self, _):
-        self.batch.B._item_computed(self)
+        self.B_._item_computed(self)
 
 
 class SimDebugBatch(_batching.DebugBatch):
@@ -410,7 +413,10 @@ class RealBackend(object):
         if pol == "neglen":
             return "neglen"
         if pol == "const":
-            return (self.prio_vals.get(str(kind), 0), 0)
+            return (self.prio_vals.get(str(kind), 0) + (1 if self.native_kinds else 0), 0)
+        if pol == "intconst":
+            # get_priority() may return any mutually comparable values, e.g. plain ints
+            return ("int", self.prio_vals.get(str(kind), 0))
         if pol == "perbatch":
             vals = self.prio_vals.get("seq", [0])
             return (vals[(kind * 5 + gen) % len(vals)], 0)
@@ -442,8 +448,13 @@ class RealBackend(object):
         self.current = [None] * spec["kinds"]
         carried = self.carried or []
         self.debug_kinds = set(spec.get("debug_kinds", []))
+        # kinds served by asynq's own DebugBatch without any harness subclass (a cdef class in the
+        # compiled build): no seeded hash, so the priority policy must exclude ties with them
+        self.native_kinds = set(spec.get("native_debug_kinds", []))
         for k in range(spec["kinds"]):
-            if k in self.debug_kinds:
+            if k in self.native_kinds:
+                self.current[k] = None
+            elif k in self.debug_kinds:
                 b = SimDebugBatch(self, k, 0)
                 _batching._debug_batch_state.batches[b.name] = b
                 self.current[k] = b
@@ -627,6 +638,11 @@ class RealBackend(object):
             raise SimError("cb:%s" % inst.token)
 
     def item(self, inst, tok, kind, key):
+        if kind in self.native_kinds:
+            it = SimDebugItem(self, tok, kind, key, native=True)
+            self.items[tok] = it
+            self.ev("item", tok, "native%d" % kind)
+            return it
         if kind in self.debug_kinds:
             it = SimDebugItem(self, tok, kind, key)
         else:
@@ -762,7 +778,7 @@ class RealBackend(object):
             objs.append(("item %s" % tok, it))
             if id(it.batch) not in seen_b:
                 seen_b.add(id(it.batch))
-                objs.append(("batch %s" % it.batch.bid, it.batch))
+                objs.append(("batch %s" % getattr(it.batch, "bid", "native"), it.batch))
         for b in self.current:
             if b is not None and id(b) not in seen_b:
                 seen_b.add(id(b))
@@ -1148,6 +1164,8 @@ class RealBackend(object):
         rnd = self.prio_log
         chosen = [p for b, p in rnd if b is batch]
         if not chosen:
+            if hasattr(batch, "prio"):
+                self.viol("C05", "priority-consulted", "the scheduler flushed batch %s without asking its get_priority() in this selection round" % batch.bid)
             return
         cp = chosen[-1]
         pending = [(b, p) for b, p in rnd if b is not batch and not b.is_flushed() and b.items]
@@ -1163,7 +1181,7 @@ class RealBackend(object):
         if self.yield_only:
             asked = {id(b) for b, p in rnd}
             for b in self.current:
-                if b is not batch and id(b) not in asked and b.items and not b.is_flushed():
+                if b is not None and b is not batch and id(b) not in asked and b.items and not b.is_flushed():
                     if self._batch_awaited(b):
                         self.viol("C05", "candidates", "pending batch %s with awaited items was not considered" % b.bid)
 
@@ -1253,6 +1271,8 @@ class RealBackend(object):
         if plan and plan.get("reenter"):
             self.fired("flush_reenters")
             k2 = plan["reenter"] % self.spec["kinds"]
+            if self.current[k2] is None or k2 in self.debug_kinds:
+                k2 = kind
             self._reenter(kind, ordn, k2)
         if plan and plan.get("cancel_kind") is not None:
             k2 = plan["cancel_kind"] % self.spec["kinds"]
@@ -1268,6 +1288,8 @@ class RealBackend(object):
             if plan.get("new_items"):
                 self.fired("flush_creates_items")
                 k2 = plan["new_items"] % self.spec["kinds"]
+                if self.current[k2] is None or k2 in self.debug_kinds:
+                    k2 = kind
                 ni = SimItem(self.current[k2], "x%d.%d" % (kind, ordn), "x", self)
                 if ni.batch is batch:
                     self.viol("C11", "fresh-batch", "item created during flush joined the batch being flushed")
